@@ -771,6 +771,17 @@ def _propagate_copies(fn):
     # names the module binds once by import / def / class (np, types, a kernel, a sketch class): stable inside every function that
     # does not rebind them -- `dtype = np.uint16` is a name for np.uint16
     stable |= {n_ for n_ in _MODULE_STABLE if n_ not in stored and n_ not in params}
+    # a local bound exactly once, outside every loop, denotes one value for the rest of the function: `b = a` is then a second name
+    # for it (`fill_process = process`), whatever `a` was bound to
+    try:
+        once = single_assignments(fn, allow_subscript=False, in_loops=False, loose=True)
+        stable |= set(once)
+        for n_, v_ in once.items():
+            # `b = a` with both bound once outside loops: b is a second name for the object a names, whatever a was built from
+            if n_ not in sa and isinstance(v_, ast.Name) and v_.id in once and n_ not in params:
+                sa[n_] = v_
+    except TypeError:
+        pass
     env = {}
     dict_env = {}        # single-use dict displays, expanded where they are splatted as **name
     uses = _name_uses(fn)
@@ -1484,6 +1495,12 @@ class _PruneConstantIfs(ast.NodeTransformer):
 
     def visit_If(self, node):
         self.generic_visit(node)
+        t = node.test
+        # `None is None` / `None is not None` (a default argument substituted into an inlined helper)
+        if isinstance(t, ast.Compare) and len(t.ops) == 1 and isinstance(t.left, ast.Constant) and isinstance(t.comparators[0], ast.Constant) \
+                and isinstance(t.ops[0], (ast.Is, ast.IsNot)) and (t.left.value is None or t.comparators[0].value is None):
+            same = t.left.value is t.comparators[0].value
+            node.test = ast.copy_location(ast.Constant(value=same if isinstance(t.ops[0], ast.Is) else not same), t)
         if isinstance(node.test, ast.Constant) and isinstance(node.test.value, (bool, int)) and not isinstance(node.test.value, str):
             arm = node.body if node.test.value else node.orelse
             return arm if arm else ast.copy_location(ast.Pass(), node)
@@ -1509,6 +1526,7 @@ def normalize(tree):
     _FoldDisplays().visit(tree)
     inl = Inliner(tree)
     n = inl.run()
+    _PruneConstantIfs().visit(tree)          # constant tests exposed by substituted default arguments
     _FoldDisplays().visit(tree)
     ast.fix_missing_locations(tree)
     tree._inlined_helpers = set(inl.inlined_names)
